@@ -23,6 +23,7 @@ from . import refs
 
 CUSTOM_NODE = "score"
 CUSTOM_EDGE = "ew"
+CUSTOM_REQ = "quality"  # a registered custom feature with required=True
 NEW_KEY = "note"
 OPTIONAL = ["ellipse_axis_radii", "circularity", "perimeter", "iou"]
 
@@ -59,6 +60,9 @@ def gen_config(rnd, *, seg=None, ndim=None, allow_optional=True, per_axis=True, 
     if seg:
         cfg["shape"] = [4, 6, 6] if ndim == 4 else rnd.choice([[8, 8], [9, 7], [10, 10]])
         cfg["seg_dtype"] = rnd.choice(["int64", "int32", "uint16", "uint64", "uint32"])
+        # the constructor accepts pos_attr=[axes] together with a segmentation (the computed
+        # centroid replaces it) - the per-axis attributes then just stay on the nodes
+        cfg["seg_stale_axes"] = rnd.random() < 0.15
         if allow_seg_axes and rnd.random() < 0.12:
             # segmentation together with per-axis position attributes: only constructible through
             # a pre-built FeatureDict; positions are static there, so such tracks are only
@@ -241,9 +245,14 @@ class World:
             seg = np.zeros((self.frames, *self.shape), dtype=cfg["seg_dtype"])
         axes = ["z", "y", "x"][-(self.ndim - 1):]
         for nd in init["nodes"]:
-            attrs = {self.time_key: nd["t"], CUSTOM_NODE: nd[CUSTOM_NODE]}
+            attrs = {self.time_key: nd["t"], CUSTOM_NODE: nd[CUSTOM_NODE], CUSTOM_REQ: int(nd["id"]) % 5}
             if cfg["seg"]:
-                seg[nd["t"]][box_mask(self.shape, nd["boxes"])] = nd["id"]
+                m = box_mask(self.shape, nd["boxes"])
+                seg[nd["t"]][m] = nd["id"]
+                if cfg.get("seg_stale_axes") and not cfg.get("seg_axes"):
+                    sp_ = [1.0] * (self.ndim - 1) if cfg["scale"] is None else cfg["scale"][1:]
+                    for a, ix, s_ in zip(axes, np.nonzero(m), sp_):
+                        attrs[a] = float(ix.mean()) * s_
             elif cfg["pos_mode"] == "axes":
                 for a, v in zip(axes, nd["pos"]):
                     attrs[a] = v
@@ -268,6 +277,8 @@ class World:
             self._init_seg_axes(g, seg, axes, tkey, lkey)
             return
         pos_attr = axes if (not cfg["seg"] and cfg["pos_mode"] == "axes") else cfg["pos_key"]
+        if cfg["seg"] and cfg.get("seg_stale_axes"):
+            pos_attr = axes
         kwargs = dict(
             segmentation=seg,
             time_attr=self.time_key,
@@ -294,6 +305,9 @@ class World:
             tracks.features[CUSTOM_NODE] = ff.Feature(
                 feature_type="node", value_type="float", num_values=1, display_name="Score",
                 required=False, default_value=None)
+            tracks.features[CUSTOM_REQ] = ff.Feature(
+                feature_type="node", value_type="int", num_values=1, display_name="Quality",
+                required=True, default_value=None)
             tracks.features[CUSTOM_EDGE] = ff.Feature(
                 feature_type="edge", value_type="int", num_values=1, display_name="EdgeWeight",
                 required=False, default_value=None)
@@ -483,7 +497,7 @@ PROFILES = {
     "history": {"add_node": 2, "delete_node": 1, "add_edge": 2, "delete_edge": 1, "swap": 1,
                 "attrs": 2, "paint": 2, "undo": 6, "redo": 4},
     "paint": {"add_node": 1, "delete_node": 1, "add_edge": 2, "delete_edge": 1, "paint": 8,
-              "undo": 2, "redo": 1, "enable": 0.4, "disable": 0.4},
+              "undo": 3, "redo": 1, "enable": 0.4, "disable": 0.4},
     "refusal": {"add_node": 4, "delete_node": 2, "add_edge": 4, "delete_edge": 2, "swap": 2,
                 "attrs": 2, "paint": 4, "undo": 1, "redo": 1},
     "features": {"add_node": 1, "delete_node": 1, "add_edge": 2, "delete_edge": 1, "attrs": 2,
@@ -532,9 +546,24 @@ def gen_op(world: World, rnd, weights: dict, refusal_bias: float = 0.08) -> dict
         if x < 0:
             kind = k
             break
-    if "undo" in weights and world.trace and world.trace[-1]["op"] == "undo" and rnd.random() < 0.4:
+    if "undo" in weights and world.trace and world.trace[-1]["op"] == "undo" and rnd.random() < 0.45:
         kind = "undo"  # undos come in bursts (several steps back, then a new edit)
+    # scripted episodes (a planned mini-sequence is played out before anything else is drawn)
+    plan = getattr(world, "plan", None)
+    if plan:
+        while plan:
+            op = plan.pop(0)(world, rnd)
+            if op is not None:
+                return op
+    if ("enable" in weights and "disable" in weights and "undo" in weights and has_seg and nodes
+            and rnd.random() < 0.03):
+        _plan_toggle_episode(world, rnd)
+        if world.plan:
+            return gen_op(world, rnd, weights, refusal_bias)
     last = world.trace[-1] if world.trace else None
+    if last is not None and last["op"] in ("enable", "iou_toggle", "feature_toggle") and last.get("mode", "enable") != "disable" \
+            and "undo" in weights and rnd.random() < 0.3:
+        return {"op": "undo"}
     if last is not None and last["op"] == "enable" and "undo" in weights and rnd.random() < 0.3:
         kind = "undo"  # look at history right after a feature came back (values must be current)
     if (last is not None and last["op"] == "paint" and "delete_node" in weights and last.get("value")
@@ -605,8 +634,13 @@ def gen_op(world: World, rnd, weights: dict, refusal_bias: float = 0.08) -> dict
         r = rnd.random()
         if r < 0.55:
             attrs = {CUSTOM_NODE: 0.0 if rnd.random() < 0.2 else round(rnd.random() * 100, 3)}
-        elif r < 0.7:
+        elif r < 0.63:
             attrs = {NEW_KEY: rnd.randint(0, 9)}
+        elif r < 0.7:
+            # several keys at once, the last one un-setting a registered required custom feature
+            attrs = {NEW_KEY: rnd.randint(0, 9), CUSTOM_NODE: round(rnd.random(), 3), CUSTOM_REQ: None}
+            if rnd.random() < 0.5:
+                attrs = {CUSTOM_NODE: attrs[CUSTOM_NODE], CUSTOM_REQ: rnd.randint(0, 4)}
         else:
             prot = [world.time_key] + sorted(tr.annotators.all_features.keys())
             attrs = {_pick(rnd, prot): rnd.randint(0, 5)}
@@ -655,11 +689,18 @@ def _gen_add_node(world, rnd, bad) -> dict:
     nodes = world.nodes()
     node = _pick(rnd, nodes) if (bad and nodes and rnd.random() < 0.3) else _unused_node_id(world, rnd)
     t = rnd.randint(0, world.frames - 1)
-    attrs: dict[str, Any] = {world.time_key: t, world.tkey: _gen_track_id(world, rnd)}
+    tid = _gen_track_id(world, rnd)
+    if bad and rnd.random() < 0.5:
+        # place the (possibly refused) node where a successful run would have to do the most
+        # sub-edits first: inside the gap of a skip edge, or on a division daughter's track
+        slot = _busy_slot(world, rnd)
+        if slot is not None:
+            t, tid = slot
+    attrs: dict[str, Any] = {world.time_key: t, world.tkey: tid, CUSTOM_REQ: rnd.randint(0, 4)}
     if rnd.random() < 0.5:
         attrs[CUSTOM_NODE] = round(rnd.random() * 10, 3)
     pixels = None
-    missing_pos = bad and rnd.random() < 0.35
+    missing_pos = bad and rnd.random() < (0.55 if isinstance(world.pos_key, list) else 0.35)
     if tr.segmentation is not None:
         if not missing_pos:
             m = _background_box(world, rnd, t)
@@ -862,3 +903,73 @@ def masks_defined(world: World, op: dict) -> bool:
             new = (frame == v) | stroke
             return refs.shape3d_defined(new, sp)
     return True
+
+
+def _plan_toggle_episode(world: World, rnd) -> None:
+    """disable k -> change a mask -> delete that node / one of its edges -> enable k -> undo (x1-2):
+    values saved inside action objects must not resurface after the feature was recomputed."""
+    tr = world.tracks
+    core = {world.tkey, world.lkey, "area"} | ({world.pos_key} if isinstance(world.pos_key, str) else set())
+    iso = tr.scale is None or len(set(tr.scale[1:])) == 1
+    opt = [k for k in sorted(tr.annotators.all_features) if k not in core]
+    if world.ndim == 3 and not iso:
+        opt = [k for k in opt if k not in ("perimeter", "circularity")]
+    if not opt:
+        world.plan = []
+        return
+    k = _pick(rnd, opt)
+    state = {}
+
+    def s_enable_first(w, r):
+        return {"op": "enable", "keys": [k]} if k not in w.tracks.annotators.features else None
+
+    def s_disable(w, r):
+        return {"op": "disable", "keys": [k]}
+
+    def s_paint(w, r):
+        for _ in range(6):
+            op = _gen_paint(w, r)
+            if masks_defined(w, op) and not op.get("second_frame") and not op.get("report_unchanged"):
+                touched = [n for n in named_nodes(w, op) if n in w.tracks.graph]
+                if touched:
+                    state["node"] = touched[0]
+                    return op
+        return None
+
+    def s_delete(w, r):
+        n = state.get("node")
+        g = w.tracks.graph
+        if n is None or n not in g:
+            return None
+        inc = list(g.in_edges(n)) + list(g.out_edges(n))
+        if inc and r.random() < 0.5:
+            e = inc[r.randint(0, len(inc) - 1)]
+            return {"op": "delete_edge", "edge": [int(e[0]), int(e[1])]}
+        return {"op": "delete_node", "node": int(n)}
+
+    def s_enable(w, r):
+        return {"op": "enable", "keys": [k]}
+
+    def s_undo(w, r):
+        return {"op": "undo"}
+
+    world.plan = [s_enable_first, s_disable, s_paint]
+    if rnd.random() < 0.8:
+        world.plan.append(s_delete)
+    world.plan += [s_enable, s_undo]
+    if rnd.random() < 0.5:
+        world.plan.append(s_undo)
+
+
+def _busy_slot(world: World, rnd):
+    """(time, track id) in the gap of a skip edge of one track, or just before a division
+    daughter on the daughter's track."""
+    g = world.tracks.graph
+    cands = []
+    for u, v in g.edges:
+        tu, tv = world.time(u), world.time(v)
+        if tv - tu > 1 and g.nodes[u].get(world.tkey) == g.nodes[v].get(world.tkey):
+            cands.append((rnd.randint(tu + 1, tv - 1), int(g.nodes[u][world.tkey])))
+        if g.out_degree(u) == 2 and tv - 1 > tu:
+            cands.append((tv - 1, int(g.nodes[v][world.tkey])))
+    return _pick(rnd, cands) if cands else None
